@@ -3,9 +3,9 @@ package mv
 import (
 	"fmt"
 	"os"
-	"time"
 	"sort"
 	"strings"
+	"time"
 
 	"github.com/couchbase/moss"
 )
@@ -635,7 +635,29 @@ func (h *Hist) final() {
 	}
 }
 
-func (h *Hist) persistNil(when string) {}
+// persistNil: Store.Persist(nil, CompactionForce) - "the higher snapshot may be
+// nil" - called while the collection's persister is idle (single-threaded use).
+// The store's content must not change.
+func (h *Hist) persistNil(when string) {
+	if h.Store == nil || h.closed || h.storeClosed || !h.controlled || h.pState != pIdle {
+		return
+	}
+	h.FS.HarnessBegin()
+	snap, err := h.Store.Persist(nil, moss.StorePersistOptions{CompactionConcern: moss.CompactionForce})
+	h.FS.HarnessEnd()
+	if err != nil {
+		h.Failf("%s: Store.Persist(nil, CompactionForce): %v", when, err)
+	}
+	if snap != nil {
+		if d := CompareSnapshot(snap, h.ExpectedStore(), h.readOpts(), "persist(nil)"); d != "" {
+			snap.Close()
+			h.Failf("%s: the snapshot returned by Store.Persist(nil, CompactionForce) differs from the store's content before it: %s", when, d)
+		}
+		snap.Close()
+	}
+	h.Label("persist-nil-forced")
+	h.noteCompactions()
+}
 
 // classifyChildren labels deletions / recreations of a child whose earlier
 // data sits in a different section (or is already persisted).
